@@ -295,11 +295,15 @@ static Bytes ep_encrypt(Endpoint &e, const Bytes &m, const Bytes &ad, Rng *chunk
         if (alg == A128) ascon128_aead_start(&e.u.s128, ap, ad.size());
         else if (alg == A128A) ascon128a_aead_start(&e.u.s128a, ap, ad.size());
         else ascon80pq_aead_start(&e.u.s80, ap, ad.size());
+        // a third of the chunked packets are processed in place (aead.h allows input == output for the block calls)
+        bool inplace = chunker && !m.empty() && chunker->chance(1, 3);
+        if (inplace) memcpy(c.p, mp, m.size());
         while (pos < m.size()) {
             size_t n = chunker ? 1 + (size_t)chunker->below(m.size() - pos) : m.size() - pos;
-            if (alg == A128) ascon128_aead_encrypt_block(&e.u.s128, mp + pos, c.p + pos, n);
-            else if (alg == A128A) ascon128a_aead_encrypt_block(&e.u.s128a, mp + pos, c.p + pos, n);
-            else ascon80pq_aead_encrypt_block(&e.u.s80, mp + pos, c.p + pos, n);
+            const uint8_t *src = inplace ? c.p + pos : mp + pos;
+            if (alg == A128) ascon128_aead_encrypt_block(&e.u.s128, src, c.p + pos, n);
+            else if (alg == A128A) ascon128a_aead_encrypt_block(&e.u.s128a, src, c.p + pos, n);
+            else ascon80pq_aead_encrypt_block(&e.u.s80, src, c.p + pos, n);
             pos += n;
         }
         if (alg == A128) ascon128_aead_encrypt_finalize(&e.u.s128, c.p + m.size());
@@ -372,11 +376,14 @@ static int ep_decrypt(Endpoint &e, const Bytes &x, const Bytes &ad, Bytes &m_out
         if (alg == A128) ascon128_aead_start(&e.u.s128, ap, ad.size());
         else if (alg == A128A) ascon128a_aead_start(&e.u.s128a, ap, ad.size());
         else ascon80pq_aead_start(&e.u.s80, ap, ad.size());
+        bool inplace = chunker && cap != 0 && chunker->chance(1, 3);
+        if (inplace) memcpy(m.p, xp, cap);
         while (pos < cap) {
             size_t n = chunker ? 1 + (size_t)chunker->below(cap - pos) : cap - pos;
-            if (alg == A128) ascon128_aead_decrypt_block(&e.u.s128, xp + pos, m.p + pos, n);
-            else if (alg == A128A) ascon128a_aead_decrypt_block(&e.u.s128a, xp + pos, m.p + pos, n);
-            else ascon80pq_aead_decrypt_block(&e.u.s80, xp + pos, m.p + pos, n);
+            const uint8_t *src = inplace ? m.p + pos : xp + pos;
+            if (alg == A128) ascon128_aead_decrypt_block(&e.u.s128, src, m.p + pos, n);
+            else if (alg == A128A) ascon128a_aead_decrypt_block(&e.u.s128a, src, m.p + pos, n);
+            else ascon80pq_aead_decrypt_block(&e.u.s80, src, m.p + pos, n);
             pos += n;
         }
         if (alg == A128) r = ascon128_aead_decrypt_finalize(&e.u.s128, xp + cap);
